@@ -14,7 +14,7 @@ Fixpoint always_ne (e : expr) : bool :=
   | ECall f ats args =>
       match sem_class f with
       | SCVector => true
-      | SCTimeLike => match args with [] => true | _ => false end
+      | SCTimeLike => match args with [] => true | [a] => always_ne a | _ => false end
       | SCMap _ true =>
           match first_vec_arg ats (List.length args) 0 with
           | Some i => (fix nth_always (l' : list expr) (i : nat) {struct l'} : bool :=
@@ -34,3 +34,36 @@ Fixpoint always_ne (e : expr) : bool :=
 
 Definition on_empty (vm : vmatch) : bool :=
   vm_on vm && match vm_labels vm with [] => true | _ => false end.
+
+(** ** The syntactic complement of known finding K7
+
+    [k7_free_vec e]: [e] is a vector-typed expression built WITHOUT the operators through which the analyser's
+    AlwaysReturns flag is known to be wrong (K7: vector/vector binary operations, clamp, topk/bottomk) and without the
+    functions for which the semantics only has an inclusion (range functions, label_replace/label_join); per-series
+    functions are taken with their single vector argument (abs, ceil, ln, sort, timestamp, hour(v), ...).  On this
+    fragment the analyser's own flag is sound: Proofs/C12_always.v [analyser_always_ne]. *)
+Fixpoint scalar_like (e : expr) : bool :=
+  match e with
+  | ENum _ => true
+  | EParen e | EUnary _ e => scalar_like e
+  | ECall f _ _ => match sem_class f with SCScalar => true | _ => false end
+  | EBin op _ None a b => negb (is_setop op) && scalar_like a && scalar_like b
+  | _ => false
+  end.
+
+Fixpoint k7_free_vec (e : expr) : bool :=
+  match e with
+  | ESel _ => true
+  | EParen e | EUnary _ e => k7_free_vec e
+  | EAgg op _ _ _ e => match op with ATopk | ABottomk | AOther => false | _ => k7_free_vec e end
+  | ECall f ats args =>
+      match sem_class f with
+      | SCVector | SCAbsent => true
+      | SCTimeLike => match args with [] => true | [a] => is_vec_or_matrix_t (arg_type_of ats 0) && k7_free_vec a | _ => false end
+      | SCMap _ true => match args with [a] => is_vec_or_matrix_t (arg_type_of ats 0) && k7_free_vec a | _ => false end
+      | _ => false
+      end
+  | EBin op rb None a b =>
+      negb (is_setop op) && ((k7_free_vec a && scalar_like b) || (scalar_like a && k7_free_vec b))
+  | _ => false
+  end.
